@@ -151,6 +151,10 @@ pub proof fn lemma_dedup_of_sorted<T>(s: Seq<T>)
         }
     }
 }
+pub proof fn lemma_sorted_distinct_is_strict<T>(s: Seq<T>)
+    requires seq_sorted(s), seq_distinct(s)
+    ensures seq_strictly_sorted(s)
+{}
 // the canonical list of a set: two strictly increasing sequences with the same elements are the same sequence
 pub proof fn lemma_strictly_sorted_unique<T>(a: Seq<T>, b: Seq<T>)
     requires seq_strictly_sorted(a), seq_strictly_sorted(b), same_elements(a, b)
